@@ -12,6 +12,7 @@ from ..tables import canon as tables_canon
 from . import c13_lazy as lazy
 from . import c13_tables as tabs
 from . import c13_state as state
+from . import c13_consume as cons
 
 ARGLIST = 'mesonbuild/arglist.py'
 ROOT = 'CompilerArgs'
@@ -492,6 +493,8 @@ def r5(ctx: RuleCtx) -> None:
     fam = family(ctx.repo)
     mut = _mutating_methods(fam)
     n_sel = 0
+    consuming: T.List[cons.Spec] = []
+    all_specs: T.Dict[str, T.List[T.Any]] = {}
     for m, c in fam.members:
         ck = fam.cls_key(m, c)
         for st in c.body:
@@ -538,9 +541,234 @@ def r5(ctx: RuleCtx) -> None:
                               f'with the copy requested the original list is modified (and `{selected[0]}` is not)', n)
             if not bad:
                 ctx.ok(f'{m.rel}: {qn}: all changes go through `{selected[0]}` (self or its copy), none is applied to self by name')
+            # caller side: is the receiver itself changed when no copy is requested?
+            fs = cons.flag_spec(st, selected[0], qn)
+            all_specs.setdefault(st.name, []).append((qn, fs))
+            if fs is not None:
+                chg = cons.changes_through(st, selected[0], lambda mname, ck=ck: mname in ABC_MUTATORS or mut.get((ck, mname), False))
+                if chg is not None:
+                    consuming.append(cons.Spec(st.name, fs[0], fs[1], fs[2], fs[3], f'{qn} ({short(chg, 50)})', c.name))
     if n_sel == 0:
         raise Undecided('no method selects between self and a copy of self; the copy-isolation clause has nothing to read')
     ctx.floor('methods that select between self and a copy', n_sel, 1)
+    _r5_callers(ctx, fam, consuming, all_specs)
+
+
+CONSUME_EXAMPLE = '''
+def twice(a: CompilerArgs, elem):
+    elem.line = a.to_native()
+    return tuple(a)
+
+def through_param(a: CompilerArgs, elem):
+    sink(elem, a)
+    return a.to_native(copy=True)
+
+def sink(elem, args):
+    elem.line = args.to_native()
+
+def copied(a: CompilerArgs):
+    x = a.to_native(copy=True)
+    return x, list(a)
+
+def rebound(a: CompilerArgs):
+    a = a.to_native()
+    return a
+
+def last_use(a: CompilerArgs, elem):
+    key = tuple(a)
+    sink(elem, a)
+'''
+CONSUME_WANT = {'twice': 1, 'through_param': 1, 'sink': 0, 'copied': 0, 'rebound': 0, 'last_use': 0}
+
+
+def _consume_scan(mods: T.List[T.Tuple[T.Optional[Module], T.Dict[str, T.Any]]], specs: T.Dict[str, 'cons.Spec'], fam_names: T.Set[str], oracle: T.Optional['cons.ClassOracle'] = None,
+                  ) -> T.Tuple[T.List[T.Tuple[T.Optional[Module], 'cons.Hit']], T.Dict[str, int], T.List[str]]:
+    """Typestate consumed-after-native over the given (module, {qualname: fn}) sets.  Returns hits, counters, undecided notes."""
+    # index of definitions by bare name (per module first, then package-wide)
+    defs: T.Dict[str, T.List[T.Tuple[int, str, T.Any]]] = {}
+    for mi, (_m, fns) in enumerate(mods):
+        for q, fn in fns.items():
+            defs.setdefault(fn.name, []).append((mi, q, fn))
+
+    def resolve(mi: int, name: str) -> T.List[T.Tuple[int, str, T.Any]]:
+        ds = defs.get(name, [])
+        own = [d for d in ds if d[0] == mi]
+        return own or ds
+
+    rxf = re.compile(r'\b(' + '|'.join(sorted(map(re.escape, fam_names))) + r')\b')
+
+    def returns_family(mi: int) -> T.Callable[[ast.Call], bool]:
+        def f(call: ast.Call) -> bool:
+            nm = call.func.attr if isinstance(call.func, ast.Attribute) else (call.func.id if isinstance(call.func, ast.Name) else None)
+            if nm is None:
+                return False
+            if nm in fam_names:
+                return True
+            return any(d[2].returns is not None and rxf.search(ast.unparse(d[2].returns)) for d in resolve(mi, nm))
+        return f
+
+    summ: T.Dict[T.Tuple[int, str], T.Set[T.Tuple[str, int]]] = {}      # (module index, qualname) -> consumed params
+    notes: T.List[str] = []
+    counts = {'direct': 0, 'via_param': 0, 'temporary': 0, 'copied': 0, 'unknown_arg': 0, 'unknown_class': 0, 'never': 0}
+    unknown_why: T.List[str] = []
+    hits: T.List[T.Tuple[T.Optional[Module], cons.Hit]] = []
+
+    calls_cache: T.Dict[T.Tuple[int, str], T.List[T.Tuple[ast.Call, str]]] = {}
+
+    def events(mi: int, q: str, fn: T.Any) -> T.List[T.Tuple[ast.Call, ast.AST, str, bool]]:
+        """(call, consumed expression, description, direct?)"""
+        out = []
+        if (mi, q) not in calls_cache:
+            cl = []
+            for n in walk_no_nested(fn, include_root=False):
+                if isinstance(n, ast.Call):
+                    nm = n.func.attr if isinstance(n.func, ast.Attribute) else (n.func.id if isinstance(n.func, ast.Name) else None)
+                    if nm is not None and (nm in specs or nm in defs):
+                        cl.append((n, nm))
+            calls_cache[(mi, q)] = cl
+        for n, nm in calls_cache[(mi, q)]:
+            if isinstance(n.func, ast.Attribute) and nm in specs:
+                sp = specs[nm]
+                fv = cons.flag_value(n, sp)
+                if fv is None:
+                    notes.append(f'{q}: `{short(n, 50)}`: the flag `{sp.flag}` is not a constant')
+                    continue
+                if fv != sp.consumes_when:
+                    out.append((n, n.func.value, 'copy', True))
+                    continue
+                out.append((n, n.func.value, f'rendered by .{nm}() without a copy', True))
+            elif nm is not None:
+                for dmi, dq, dfn in resolve(mi, nm):
+                    for pname, ppos in sorted(summ.get((dmi, dq), ())):
+                        a = cons.arg_for(n, pname, ppos)
+                        if a is not None:
+                            out.append((n, a, f'handed to {dfn.name}(.. {pname} ..), which renders it without a copy', False))
+        return out
+
+    views: T.Dict[T.Tuple[int, str], cons.FnView] = {}
+    for _round in range(5):
+        grew = False
+        for mi, (_m, fns) in enumerate(mods):
+            for q, fn in fns.items():
+                is_meth = '.' in q and fn.args.args and fn.args.args[0].arg in ('self', 'cls')
+                ppos = cons.param_pos(fn, bool(is_meth))
+                for call, obj, how, _d in events(mi, q, fn):
+                    if how == 'copy' or not isinstance(obj, ast.Name) or obj.id not in ppos:
+                        continue
+                    view = views.setdefault((mi, q), cons.FnView(q, fn))
+                    cns = view.cfg.node_containing(call)
+                    kills = [k for k in view.cfg.nodes if view._stores(k.expr(), obj.id, k.kind, k.ast)]
+                    if any(view.cfg.can_reach(view.cfg.entry, c, [k for k in kills if k.id != c.id]) for c in cns):
+                        s = summ.setdefault((mi, q), set())
+                        if (obj.id, ppos[obj.id]) not in s:
+                            s.add((obj.id, ppos[obj.id]))
+                            grew = True
+        if not grew:
+            break
+    else:
+        raise Undecided('consumed-parameter summaries did not stabilise')
+
+    direct_meths = set(specs)
+    for mi, (m, fns) in enumerate(mods):
+        for q, fn in fns.items():
+            view = None
+            for call, obj, how, direct in events(mi, q, fn):
+                if how == 'copy':
+                    counts['copied'] += 1
+                    continue
+                if isinstance(obj, ast.Call) or isinstance(obj, (ast.BinOp, ast.List, ast.ListComp, ast.Constant, ast.JoinedStr, ast.Starred)):
+                    counts['temporary'] += 1
+                    continue
+                root = cons._root_name(obj)
+                if root is None:
+                    notes.append(f'{q}: consumed expression `{short(obj, 50)}` has no local root')
+                    continue
+                if not direct:
+                    ev = cons.family_evidence(fn, root, fam_names, returns_family(mi), direct_meths) if isinstance(obj, ast.Name) else None
+                    if ev is None:
+                        counts['unknown_arg'] += 1
+                        continue
+                if oracle is not None and isinstance(obj, ast.Name):
+                    vd, why = oracle.verdict(fn, obj.id, lambda nm, mi=mi: [d[2] for d in resolve(mi, nm)])
+                    if vd == 'never':
+                        counts['never'] += 1
+                        continue
+                    if vd == 'unknown':
+                        counts['unknown_class'] += 1
+                        unknown_why.append(f'{q}: `{obj.id}` ({why})')
+                        continue
+                counts['direct' if direct else 'via_param'] += 1
+                view = view or views.setdefault((mi, q), cons.FnView(q, fn))
+                for rd, what in view.reads_after(call, obj):
+                    hits.append((m, cons.Hit(cons.Site(q, call, obj, how), rd, what)))
+    counts['unknown_why'] = unknown_why     # type: ignore[assignment]
+    counts['summaries'] = len(summ)
+    return hits, counts, notes
+
+
+def _r5_callers(ctx: RuleCtx, fam: lazy.Family, consuming: T.List['cons.Spec'], all_specs: T.Dict[str, T.List[T.Any]]) -> None:
+    """Typestate consumed-after-native (see c13_consume)."""
+    if not consuming:
+        ctx.ok('no self-or-copy method changes the list through the selected object: rendering never consumes its receiver')
+        return
+    specs: T.Dict[str, cons.Spec] = {}
+    for sp in consuming:
+        for qn, fs in all_specs.get(sp.meth, []):
+            if fs is None or fs[:2] != (sp.flag, sp.pos) or fs[2] != sp.default or fs[3] != sp.consumes_when:
+                raise Undecided(f'{qn} and {sp.where} disagree on the copy flag of {sp.meth}; a call site cannot be read without the receiver class')
+        specs[sp.meth] = sp
+    fam_names = {c.name for _m, c in fam.members}
+
+    # built-in example
+    ex_tree = ast.parse(CONSUME_EXAMPLE)
+    ex_fns = {st.name: st for st in ex_tree.body if isinstance(st, ast.FunctionDef)}
+    ex_spec = {'to_native': cons.Spec('to_native', 'copy', 0, False, False, 'example')}
+    ex_hits, _c, ex_notes = _consume_scan([(None, ex_fns)], ex_spec, {'CompilerArgs'})
+    got = {k: 0 for k in CONSUME_WANT}
+    for _m, h in ex_hits:
+        got[h.site.fn_q] += 1
+    if got != CONSUME_WANT or ex_notes:
+        raise AnalysisError(f'C13.R5 built-in consumed-after-native example: wanted {CONSUME_WANT}, got {got} {ex_notes}')
+    ctx.note(f'built-in example: {len(CONSUME_WANT)} synthetic callers judged as expected (read after rendering / through a consuming parameter / copy / rebound / last use)')
+
+    # the package: the modules that render (a consumed parameter is summarised and followed inside these modules)
+    pat = re.compile('|'.join(r'\.' + re.escape(k) + r'\s*\(' for k in specs))
+    rels = [rel for rel in ctx.repo.py_files('mesonbuild') if pat.search(ctx.repo.read(rel))]
+    mods = []
+    for rel in rels:
+        m = ctx.repo.module(rel)
+        mods.append((m, dict(m.funcs())))
+    oracle = cons.ClassOracle(ctx.repo, fam.members, {sp.cls for sp in consuming}, set(specs))
+    hits, counts, notes = _consume_scan(mods, specs, fam_names, oracle)
+    seen: T.Set[T.Tuple[str, str, str]] = set()
+    by_site: T.Dict[int, T.List[cons.Hit]] = {}
+    for m, h in hits:
+        key = (m.rel, h.site.fn_q, norm(h.read)[:200])
+        if key in seen:
+            continue
+        seen.add(key)
+        sp_where = ', '.join(s.where for s in specs.values())
+        ctx.violation(m, h.site.fn_q, f'{norm(h.site.call)[:120]} ; {norm(h.read)[:160]}',
+                      f'{h.site.fn_q}: `{norm(h.site.obj)}` is {h.site.how} ({sp_where} changes its receiver when no copy is requested), and is read again '
+                      f'{h.what}: `{short(h.read, 90)}` - the second reader sees the arguments the first rendering put in (e.g. a second --start-group/--end-group pair)',
+                      h.read)
+        by_site.setdefault(id(h.site.call), []).append(h)
+    n_sites = counts['direct'] + counts['via_param']
+    n_summ = counts['summaries']
+    for _ in range(n_sites - len(by_site)):
+        ctx.ok('a CompilerArgs object rendered without a copy is not read again on any path')
+    for _ in range(counts['never']):
+        ctx.ok('a rendering without a copy on an object whose declared class renders without changing its receiver')
+    ctx.note(f'consuming renderings judged: {counts["direct"]} direct on a named object, {counts["via_param"]} through a consuming parameter; '
+             f'{counts["never"]} on objects of a declared non-consuming class, {counts["temporary"]} on a temporary, {counts["copied"]} with a copy; not judged: '
+             f'{counts["unknown_arg"]} arguments of consuming parameters without source-level evidence of being a CompilerArgs, '
+             f'{counts["unknown_class"]} objects whose family class the source does not declare')
+    for w in counts['unknown_why'][:12]:      # type: ignore[index]
+        ctx.note('class not declared: ' + w)
+    ctx.floor('renderings without a copy that are judged (consuming or declared non-consuming class)', n_sites + counts['never'], 3)
+    ctx.floor('functions with a consumed parameter', n_summ, 1)
+    if notes:
+        raise Undecided('consumed-after-native: ' + '; '.join(notes[:4]))
 
 
 # ---------------------------------------------------------------------------------------------------------------
